@@ -833,6 +833,10 @@ def k11_input_gate(core, rep):
     for rel, c in core.all_nodes(ast.Call):
         if call_name(c) == 'ConfigParser':
             extra = [k.arg for k in c.keywords if k.arg != 'interpolation']
+            plain = any(k.arg == 'interpolation' and _const(k.value, None) for k in c.keywords)
+            rep.ob('K11e', f'no-interpolation/{rel}@{enclosing_function(c).name if enclosing_function(c) else "module"}', plain,
+                   f'{unparse(c)} keeps the default %-interpolation: `%(name)s` in a supplied value is replaced by another key\'s text before any validator sees it, and a bare % raises',
+                   f'{rel}:{c.lineno}')
             rep.ob('K11e', f'parser-options/{rel}@{enclosing_function(c).name if enclosing_function(c) else "module"}',
                    not extra and not c.args,
                    f'{unparse(c)} sets {extra or "positional defaults"}: defaults make an absent input appear supplied, and comment/delimiter options make text read from the file differ from the same text typed at a prompt',
